@@ -166,6 +166,38 @@ pub fn sweep(maxlen: usize, limit_report: usize) -> (u64, u64, u64, Vec<String>)
     (n, acc, inexact, viol)
 }
 
+/// very long literals (totality: no stack exhaustion / quadratic blow-up): each shape repeated `n` times, parsed on a thread
+/// with a SMALL stack (512 KiB; rustc gives proc-macros 8 MiB but builds them unoptimised). A recursive implementation
+/// overflows and kills the process (detected by the caller through the exit status), an iterative one does not care.
+pub fn stress(n: usize) -> Vec<String> {
+    let shapes: &[&str] = &["{{", "}}", "{}", "a{}", "{0:x}", "{a}", "{:>8}", " ", "\u{e9}", "{{{}}}", "9", "{:9"];
+    let mut out = Vec::new();
+    for sh in shapes {
+        let lit: String = sh.repeat(n);
+        let t0 = std::time::Instant::now();
+        let l2 = lit.clone();
+        let h = std::thread::Builder::new().stack_size(512 * 1024).spawn(move || {
+            let a = real::format_string(&l2).map(|f| f.formats.len());
+            let b = spec::spec_format_string(&l2).map(|f| f.formats.len());
+            let c = placeholder_x::x_parse(&l2).len();
+            (a, b, c)
+        });
+        match h.map(|h| h.join()) {
+            Ok(Ok((a, b, _c))) => {
+                if b.is_some() && a != b {
+                    out.push(format!("long literal {sh:?} x {n}: std::fmt accepts it with {b:?} placeholders, derive gives {a:?}"));
+                }
+            }
+            _ => out.push(format!("PANIC while parsing the long literal {sh:?} x {n} (totality, C18)")),
+        }
+        let dt = t0.elapsed().as_secs_f64();
+        if dt > 20.0 {
+            out.push(format!("PANIC-like: parsing {sh:?} x {n} took {dt:.1} s (bounded time, C18)"));
+        }
+    }
+    out
+}
+
 pub fn oracle_main() -> i32 {
     let args: Vec<String> = std::env::args().collect();
     std::panic::set_hook(Box::new(|_| {}));
@@ -204,8 +236,17 @@ pub fn oracle_main() -> i32 {
             }
             if viol.is_empty() { 0 } else { 1 }
         }
+        Some("stress") => {
+            let n: usize = args.get(2).and_then(|x| x.parse().ok()).unwrap_or(50_000);
+            let v = stress(n);
+            println!("STRESS shapes=12 repeat={n} violations={}", v.len());
+            for m in &v {
+                println!("MISMATCH {m}");
+            }
+            if v.is_empty() { 0 } else { 1 }
+        }
         _ => {
-            eprintln!("usage: oracle lit <s>.. | lift <s>.. | sweep <maxlen>");
+            eprintln!("usage: oracle lit <s>.. | lift <s>.. | sweep <maxlen> | stress <n>");
             2
         }
     }
